@@ -31,11 +31,16 @@ CHECKS = {
          "Any-fit invariant proved in full for all four heuristics in every arrival order; bin-count bound proved with factor 2 (PARTIAL); sharp 1.7 and 11/9 constants searched with the verified oracle.", TB),
  "C10": ("proof", "Lean 4 theorems cover_le_opt, *_half_coverable + verified optCover oracle",
          "ALG <= OPT and OPT <= 2 ALG + 1 proved for all three (this is the full bound for the decreasing heuristic; PARTIAL for 2/3 and 3/4); sharp constants searched with the verified oracle.", TB),
+ "C13": ("proof", "Lean 4 theorems lb_admissible, lb_sorted_flag, genTree_eq, lexPerms_*, allCombSums_* + correspondence on direct calls",
+         "Admissibility of the three lower bounds and independence of the sorted flag proved for all sum vectors and remaining totals; the in/ex tree is proved equal to the filter of all sub-lists; "
+         "all_combinations of the sums manager proved sound, complete and duplicate-free (contents manager: correspondence and direct evaluation, PARTIAL).", TB),
+ "C20": ("proof", "Lean 4 theorems value_eq_doc, value_perm, value_sorted_fast, weighted_def + correspondence on direct calls",
+         "Full: each objective's value equals its documented function for every sum vector, is order-independent, and the sorted fast path agrees whenever the sums are sorted; strict correspondence of value_to_minimize on lists, tuples and arrays.", TB),
  "C12": ("proof", "Lean 4 theorems cbldm_isPartition, cbldm_card, optBalanced_spec (verified oracle) + correspondence",
          "Validity and the cardinality bound proved for every input, bound and interruption point; optimality certified against the verified balanced oracle (optimality theorem stated-only: PARTIAL).", TB),
 }
 
-NOT_YET = {k: 'check under construction in this session (suite not yet registered); see DESIGN.md section 8' for k in ['C11','C13','C14','C15','C16','C17','C18','C19','C20']}
+NOT_YET = {k: 'check under construction in this session (suite not yet registered); see DESIGN.md section 8' for k in ['C11','C14','C15','C16','C17','C18','C19']}
 
 
 def main():
